@@ -643,7 +643,9 @@ func runWorkloadConcurrentFirst(w Workload) error {
 	if procs < 1 {
 		procs = 1
 	}
-	runtime.GOMAXPROCS(procs)
+	if os.Getenv("VERIF_COLD_KEEP_PROCS") == "" {
+		runtime.GOMAXPROCS(procs) // otherwise the whole child stays on the single P it was started with
+	}
 	got := make([][]string, len(w.G))
 	var wg sync.WaitGroup
 	start := make(chan struct{})
@@ -714,6 +716,14 @@ func checkCold(w Workload) error {
 		cmd := exec.Command(os.Args[0], "-test.run", "^TestC14Cold$", "-test.count", "1", "-test.timeout", "120s")
 		// the race runtime sleeps 1 s at exit by default; every goroutine of the child has been joined by then
 		cmd.Env = append(os.Environ(), "VERIF_COLD_FILE="+path, "VERIF_REPLAY=", "GORACE=atexit_sleep_ms=20")
+		// the processes of a case start with different GOMAXPROCS settings in their environment (1, 2, inherited):
+		// package initialisers that size tables or pick strategies from it see a small value there
+		switch i % 3 {
+		case 0:
+			cmd.Env = append(cmd.Env, "GOMAXPROCS=1", "VERIF_COLD_KEEP_PROCS=1")
+		case 1:
+			cmd.Env = append(cmd.Env, "GOMAXPROCS=2")
+		}
 		out, err := cmd.CombinedOutput()
 		if err != nil {
 			txt := string(out)
@@ -873,6 +883,13 @@ func drawHot(rt *rapid.T, kind string, ver int, procs int, itersScale int) HotCa
 			c.G += 8
 		}
 	case "parse":
+		if procs == 2 && (env.Tier == "thorough" || (int(env.Seed)+ver)%2 == 0) {
+			// a crowd (quick tier: two of the four versions, rotating with the seed): far more goroutines than
+			// Ps, each running long enough to be preempted inside the call, so that more calls are in flight
+			// at once than any table sized from GOMAXPROCS (8 x 16 = 128 here) expects
+			c.G = rapid.IntRange(450, 600).Draw(rt, "crowdsize")
+			c.Procs = 4
+		}
 		for i := 0; i < n; i++ {
 			if rapid.IntRange(0, 3).Draw(rt, "bad") == 0 {
 				s, _ := gen.Mutate(rt, gen.ValidVector(rt, c.Ver))
@@ -882,6 +899,9 @@ func drawHot(rt *rapid.T, kind string, ver int, procs int, itersScale int) HotCa
 			}
 		}
 		c.Iters = 25000 * itersScale
+		if c.G > 100 {
+			c.Iters = 10000 * itersScale
+		}
 	default:
 		for i := 0; i < n; i++ {
 			c.Strs = append(c.Strs, gen.BStr(gen.ValidVector(rt, c.Ver).S))
@@ -1114,7 +1134,7 @@ func TestC14(t *testing.T) {
 	for _, cb := range combos {
 		cb := cb
 		Rapid(h, "cold-start", nc, func(rt *rapid.T) Workload {
-			w := Workload{Procs: []int{4, 16}[rapid.IntRange(0, 1).Draw(rt, "procs")], Rounds: env.Scale(2, 3)}
+			w := Workload{Procs: []int{4, 16}[rapid.IntRange(0, 1).Draw(rt, "procs")], Rounds: env.Scale(3, 6)}
 			ng := rapid.IntRange(16, 48).Draw(rt, "goroutines")
 			for g := 0; g < ng; g++ {
 				var ops []WOp
